@@ -266,9 +266,19 @@ def o202(ctx):
         aps = [e for e in it.events if e.kind == "call" and e.name == "list.append" and e.fn == q]
         tup = aps[0].args[1] if aps else None
         ctx.count(1)
+        if not aps:
+            raise Unsupported("no candidate is recorded on the interpreted path of measure_thickness_cpu (list.append not reached): not decided", fn)
         if aps and not (isinstance(tup, Seq) and len(tup.items) == 3):
             # the candidates are kept in another layout (parallel lists, an array): what each piece holds is not read off a tuple here
             raise Unsupported("the candidate matches are not recorded as one tuple per candidate: layout not decided", aps[0].node)
+        if isinstance(tup, Seq) and len(tup.items) == 3:
+            s_t, t_t = to_term(tup.items[1]), to_term(tup.items[2])
+            known_s = tm.has_sym(s_t, smask) or tm.has_sym(s_t, tmask)
+            known_t = tm.has_sym(t_t, smask) or tm.has_sym(t_t, tmask)
+            if not (known_s and known_t):
+                # an index that reaches the tuple through a form the interpretation does not follow back to the masks (a zip of the index array with
+                # the neighbour lists, ...): which surface it belongs to is not read off here
+                raise Unsupported("the source / target index recorded with a candidate is not traced back to the surface masks: not decided", aps[0].node)
         if not (isinstance(tup, Seq) and len(tup.items) == 3 and tm.has_sym(to_term(tup.items[1]), smask) and tm.has_sym(to_term(tup.items[2]), tmask)
                 and tm.contains(to_term(tup.items[0]), lambda x: x.op == "sqrt")):
             ctx.finding(q, aps[0].node if aps else fn, "candidates must be recorded as (distance, source index, target index)", aps[0].node if aps else fn, m)
@@ -543,4 +553,4 @@ def _obligations():
 
 
 def obligations():
-    return _obligations() + [labels_obligation("C20"), selectors_obligation("C20"), mutations_obligation("C20"), effects_obligation("C20"), plumbing_obligation("C20"), overrides_obligation("C20"), options_obligation("C20"), handlers_obligation("C20")]
+    return _obligations() + [labels_obligation("C20"), selectors_obligation("C20"), mutations_obligation("C20"), loopstate_obligation("C20"), effects_obligation("C20"), plumbing_obligation("C20"), overrides_obligation("C20"), options_obligation("C20"), handlers_obligation("C20")]
